@@ -29,17 +29,20 @@ DAY = 86400
 BUILD_NS = 1_718_000_000 * 10**9
 
 RULE = {
-    'invariance': 'one run = one generated criteria-matrix workbook (<=24 conditional-aggregate cells over mixed ranges) x a seeded '
-                  'timeline of 6-20 simulated instants/zones; non-trivial = the timeline changes the month-length class or crosses a '
-                  'month/year end or makes local date != UTC date; distinct = distinct (workbook, timeline) digests among those',
+    'invariance': 'one run = one generated criteria-matrix workbook (<=28 conditional-aggregate cells over mixed ranges; on a third of '
+                  'the runs with date-times inside a DST gap/overlap) x a seeded timeline of 6-20 simulated instants in fixed-offset and '
+                  'DST-rule zones, on half of the runs interleaved with set_cells edits of criterion/range cells, permuted and repeated '
+                  'queries; non-trivial = the timeline changes the month-length class or crosses a month/year end or makes local date '
+                  '!= UTC date or contains an override; distinct = distinct (workbook, timeline) digests among those',
     'calendar': 'one run = the TODAY() dashboard with per-run start/deadline/holidays x a seeded timeline of 20-120 clock jumps '
                 '(forward and backward), zone changes and queries; non-trivial = the timeline crosses a local midnight between two '
                 'queries, or a month end / 29 Feb / year end / DST transition, or local date != UTC date; distinct = distinct plan digests among those',
 }
 ASSUMPTIONS = {
     'invariance': ['the LD_PRELOAD shim intercepts every wall-clock read of the process (pre-flight checked)',
-                   'decides only the necessary condition "result does not depend on the evaluation date"; whether the selected '
-                   'positions are the right ones is a pure-input question and is not claimed'],
+                   'decides only the necessary conditions "result does not depend on the evaluation date / zone" and "a used executor '
+                   'answers like a pristine one with the same overrides"; whether the selected positions are the right ones is a '
+                   'pure-input question and is not claimed'],
     'calendar': ['the LD_PRELOAD shim intercepts every wall-clock read of the process (pre-flight checked)',
                  'local time = POSIX TZ rules as evaluated by an independent 40-line evaluator, cross-checked against libc localtime() '
                  'for the same explicit instant (a disagreement skips the instant, it is never a violation)',
@@ -255,6 +258,39 @@ def _gen_invariance(seed, cfg):
     swarm.update(cfg.get('swarm', {}))
     spec, n = _matrix_workbook(r, swarm['datelike'])
     k = r.randint(6, 20)
+    # rule zones (own stream): on a third of the runs some instants lie in a POSIX rule zone with DST, and the date
+    # column holds date-times inside that zone's spring-forward gap / fall-back overlap next to their neighbours one
+    # hour later - values that a "convert to UTC first" comparison folds together or re-orders, in that zone only
+    rz = core.rng(seed, 'clocksim', 'invariance', 'zones')
+    rule_zone = rz.choice(RULE_TZ) if rz.random() < 0.35 else None
+    if 'rule_zone' in cfg.get('swarm', {}):
+        rule_zone = cfg['swarm']['rule_zone']
+    swarm['rule_zone'] = rule_zone
+    if rule_zone:
+        m_ = _TZ_RE.match(rule_zone)
+        y_ = rz.randint(1995, 2035)
+        cells_ = spec['sheets'][0]['cells']
+        last_ = 1 + max(wbgen.parse_a1(k_)[1] for k_ in cells_ if k_[0] in 'BCDE')
+        specials = []
+        for rule, hh in ((m_.group(5), int(m_.group(6) or 2)), (m_.group(7), int(m_.group(8) or 2))):
+            d_ = _mwd(y_, rule)
+            t0_ = datetime.datetime(d_.year, d_.month, d_.day) + datetime.timedelta(hours=hh)
+            for mins in (30, 90, -30, 15, 75):
+                specials.append(t0_ + datetime.timedelta(minutes=mins))
+        rz.shuffle(specials)
+        rows_ = list(range(last_))
+        rz.shuffle(rows_)
+        used_rows = []
+        for rr_, v_ in zip(rows_[:max(2, last_ - 1)], specials):
+            cells_[a1(4, rr_)] = enc_value(v_)
+            used_rows.append(rr_)
+        for j_ in range(rz.randint(2, 4)):
+            rr_ = rz.choice(used_rows)
+            rng_e = 'E1:E%d' % last_
+            f_ = rz.choice(['=COUNTIFS(%s,E%d)' % (rng_e, rr_ + 1), '=SUMIFS(C1:C%d,%s,E%d)' % (last_, rng_e, rr_ + 1),
+                            '=SUMIF(%s,E%d,C1:C%d)' % (rng_e, rr_ + 1, last_), '=AVERAGEIFS(C1:C%d,%s,E%d)' % (last_, rng_e, rr_ + 1),
+                            '=COUNTIFS(%s,">"&E%d)' % (rng_e, rr_ + 1), '=COUNTIFS(%s,"<="&E%d)' % (rng_e, rr_ + 1)])
+            cells_[a1(0, n + j_)] = f_
     timeline = []
     tz = 'UTC0'
     # the second simulated dimension: evaluation / override history.  Between two instants a client may edit
@@ -290,6 +326,10 @@ def _gen_invariance(seed, cfg):
             if rh.random() < 0.25:
                 ent['repeat'] = True          # evaluate everything twice at this instant
         timeline.append(ent)
+    if rule_zone:
+        idx = [i for i in range(1, len(timeline)) if rz.random() < 0.5] or [len(timeline) - 1]
+        for i in idx:
+            timeline[i]['tz'] = rule_zone
     return {'engine': NAME, 'mode': 'invariance', 'seed': seed, 'swarm': swarm, 'spec': spec, 'n_formulas': n, 'timeline': timeline}
 
 
@@ -368,6 +408,8 @@ def _exec_invariance(plan):
                 feats.add('month-crossed')
             if t['tz'] != prev['tz']:
                 probe('tz_changed')
+                if _TZ_RE.match(t['tz']).group(3) or _TZ_RE.match(prev['tz']).group(3):
+                    probe('switched_between_fixed_offset_and_dst_rule_zone')
         prev = t
         if t.get('set'):
             batch = []
@@ -435,7 +477,8 @@ def _exec_invariance(plan):
             e0 = first.setdefault(ent['epoch'], ent)
             if ent['row'][k][0] != e0['row'][k][0]:
                 mism.append({'key': 'clock-dependent-result', 'cell': k, 'formula': f, 'instants': [e0['t'], ent['t']],
-                             'dates': [e0['date'], ent['date']], 'observed': ent['row'][k][0], 'expected': e0['row'][k][0]})
+                             'dates': [e0['date'], ent['date']], 'observed': ent['row'][k][0], 'expected': e0['row'][k][0],
+                             'zones': [plan['timeline'][e0['t']]['tz'], plan['timeline'][ent['t']]['tz']]})
                 break
     seen = set()
     uniq = []
@@ -864,7 +907,9 @@ def describe(plan, m):
         if m.get('key') != 'clock-dependent-result':
             return '%s: %s %s on %s: observed %s, expected %s (%s; overrides %s)' % (
                 m.get('key'), m.get('cell'), m.get('formula'), m['dates'][0], m['observed'], m['expected'], m.get('why', ''), m.get('overrides'))
-        return '%s: %s gives %s on %s but %s on %s' % (m['cell'], m['formula'], m['expected'], m['dates'][0], m['observed'], m['dates'][1])
+        z = m.get('zones') or ['', '']
+        return '%s: %s gives %s on %s (zone %s) but %s on %s (zone %s)' % (m['cell'], m['formula'], m['expected'], m['dates'][0], z[0],
+                                                                          m['observed'], m['dates'][1], z[1])
     return '%s (%s, %s class) at local date %s zone %s: observed %s, expected %s (start %s)' % (
         m['cell'], m['formula'], m['which'], m['local_date'], m['tz'], m['observed'], m['expected'], m.get('start'))
 
